@@ -43,6 +43,8 @@ class Creators:
     Gfa instances, which are not complete.
     """
     if self._version is None:
+      self.__check_line_queue_version(self._version_guess,
+          "guessed from the lines of the queue")
       self._version = self._version_guess
     for i in range(0,len(self._line_queue)):
       self.add_line(self._line_queue[i])
@@ -87,37 +89,45 @@ class Creators:
         gfa_line = gfapy.Line(gfa_line, dialect=self._dialect)
       gfa_line.connect(self)
     elif rt == "H":
-      self._n_input_header_lines += 1
       if isinstance(gfa_line, str):
         gfa_line = gfapy.Line(gfa_line, vlevel=self._vlevel,
             dialect=self._dialect)
-      self.header._merge(gfa_line)
+      version = None
       if gfa_line.VN:
         if gfa_line.VN == "1.0":
-          self._version = "gfa1"
+          version = "gfa1"
         elif gfa_line.VN == "2.0":
-          self._version = "gfa2"
+          version = "gfa2"
         else:
-          self._version = gfa_line.VN
+          version = gfa_line.VN
+        if self._vlevel > 0 and version not in gfapy.VERSIONS:
+          raise gfapy.VersionError(
+              "GFA specification version {} not supported".format(version))
+        self.__check_line_queue_version(version, "specified in header VN tag")
+      self._n_input_header_lines += 1
+      self.header._merge(gfa_line)
+      if version is not None:
+        self._version = version
         self._version_explanation = "specified in header VN tag"
-        if self._vlevel > 0:
-          self._validate_version()
         self.process_line_queue()
     elif rt == "S":
       if isinstance(gfa_line, str):
         gfa_line = gfapy.Line(gfa_line, vlevel=self._vlevel,
             dialect=self._dialect)
+      explanation = "implied by: syntax of S {} line".format(gfa_line.name)
+      self.__check_line_queue_version(gfa_line.version, explanation)
       self._version = gfa_line.version
-      self._version_explanation = \
-          "implied by: syntax of S {} line".format(gfa_line.name)
+      self._version_explanation = explanation
       self.process_line_queue()
       gfa_line.connect(self)
     elif rt in ["E", "F", "G", "U", "O"]:
-      self._version = "gfa2"
-      self._version_explanation = "implied by: presence of a {} line".format(rt)
+      explanation = "implied by: presence of a {} line".format(rt)
       if isinstance(gfa_line, str):
         gfa_line = gfapy.Line(gfa_line, vlevel=self._vlevel,
-            version=self._version, dialect=self._dialect)
+            version="gfa2", dialect=self._dialect)
+      self.__check_line_queue_version("gfa2", explanation)
+      self._version = "gfa2"
+      self._version_explanation = explanation
       self.process_line_queue()
       gfa_line.connect(self)
     elif rt in ["L", "C", "P"]:
@@ -125,6 +135,25 @@ class Creators:
       self._line_queue.append(gfa_line)
     else:
       self._line_queue.append(gfa_line)
+
+  def __check_line_queue_version(self, version, explanation):
+    """Refuse a version which is incompatible with a line of the queue,
+    before anything is changed."""
+    for queued in self._line_queue:
+      if isinstance(queued, str):
+        rt = queued[0:1]
+      else:
+        rt = queued.record_type
+      if version == "gfa1":
+        compatible = rt in ["H", "#", "S", "L", "C", "P"]
+      elif version == "gfa2":
+        compatible = rt not in ["L", "C", "P"]
+      else:
+        compatible = True
+      if not compatible:
+        raise gfapy.VersionError(
+          "Version: {} ({})\n".format(version, explanation)+
+          "Incompatible with a previous line of type {}".format(rt))
 
   def __add_line_GFA1(self, gfa_line):
     if isinstance(gfa_line, str):
